@@ -249,17 +249,36 @@ func (a *objAPI[K]) inst() *inst {
 			return d
 		},
 	}
+	var keptArr []K // a result the caller kept unmodified: it must still hold its keys at the next call
+	var keptToks string
+	kaCalls := 0
 	it.keyArrayWrite = func() string {
+		note := ""
+		if keptArr != nil {
+			var toks []string
+			for _, k := range keptArr {
+				toks = append(toks, a.kTok(k))
+			}
+			if joinToks(toks) != keptToks {
+				note = "!kept-KeyArray-result-changed:" + joinToks(toks)
+			}
+			keptArr = nil
+		}
 		ks := a.keyArray()
 		var toks []string
 		for _, k := range ks {
 			toks = append(toks, a.kTok(k))
 		}
-		var zero K
-		for i := range ks {
-			ks[i] = zero
+		kaCalls++
+		if kaCalls%2 == 1 && len(ks) > 0 {
+			keptArr, keptToks = ks, joinToks(toks)
+		} else { // the caller owns the slice and overwrites it
+			var zero K
+			for i := range ks {
+				ks[i] = zero
+			}
 		}
-		return joinToks(toks)
+		return joinToks(toks) + note
 	}
 	var pendE func() []interface{}
 	var pendK func() []K
@@ -647,17 +666,36 @@ func (a *numAPI[K, W]) inst() *inst {
 			return d
 		},
 	}
+	var keptArr []K // a result the caller kept unmodified: it must still hold its keys at the next call
+	var keptToks string
+	kaCalls := 0
 	it.keyArrayWrite = func() string {
+		note := ""
+		if keptArr != nil {
+			var toks []string
+			for _, k := range keptArr {
+				toks = append(toks, a.kTok(k))
+			}
+			if joinToks(toks) != keptToks {
+				note = "!kept-KeyArray-result-changed:" + joinToks(toks)
+			}
+			keptArr = nil
+		}
 		ks := a.keyArray()
 		var toks []string
 		for _, k := range ks {
 			toks = append(toks, a.kTok(k))
 		}
-		var zero K
-		for i := range ks {
-			ks[i] = zero
+		kaCalls++
+		if kaCalls%2 == 1 && len(ks) > 0 {
+			keptArr, keptToks = ks, joinToks(toks)
+		} else { // the caller owns the slice and overwrites it
+			var zero K
+			for i := range ks {
+				ks[i] = zero
+			}
 		}
-		return joinToks(toks)
+		return joinToks(toks) + note
 	}
 	var pendE func() []interface{}
 	var pendK func() []K
@@ -966,17 +1004,36 @@ func (a *setAPI[K]) inst() *inst {
 			return d
 		},
 	}
+	var keptArr []K // a result the caller kept unmodified: it must still hold its keys at the next call
+	var keptToks string
+	kaCalls := 0
 	it.keyArrayWrite = func() string {
+		note := ""
+		if keptArr != nil {
+			var toks []string
+			for _, k := range keptArr {
+				toks = append(toks, a.kTok(k))
+			}
+			if joinToks(toks) != keptToks {
+				note = "!kept-KeyArray-result-changed:" + joinToks(toks)
+			}
+			keptArr = nil
+		}
 		ks := a.keyArray()
 		var toks []string
 		for _, k := range ks {
 			toks = append(toks, a.kTok(k))
 		}
-		var zero K
-		for i := range ks {
-			ks[i] = zero
+		kaCalls++
+		if kaCalls%2 == 1 && len(ks) > 0 {
+			keptArr, keptToks = ks, joinToks(toks)
+		} else { // the caller owns the slice and overwrites it
+			var zero K
+			for i := range ks {
+				ks[i] = zero
+			}
 		}
-		return joinToks(toks)
+		return joinToks(toks) + note
 	}
 	var pendK func() []K
 	it.openEnum = func() { pendK = a.openKeys() }
